@@ -736,6 +736,27 @@ fn area_smallstack(cx: &mut Cx, r: &mut Rng) {
 fn area_misc(cx: &mut Cx, r: &mut Rng) {
     cx.rep.eval();
     cx.rep.distinct(&format!("misc|{}", r.below(50)));
+    // one metric with very many tags (every fourth case; in the unoptimised build nothing is a loop that was written as
+    // a recursion)
+    if r.chance(1, 4) {
+        let n = *r.pick(&[5_000usize, 20_000, 40_000]);
+        cx.call("misc", "a metric with tens of thousands of tags", || jobj! {"tags" => n}, move || {
+            // (on an ordinary application thread: 2 MiB of stack, not the main thread's 8)
+            let t = std::thread::spawn(move || {
+                let c = StatsdClient::from_sink("many", cadence::NopMetricSink);
+                let keys: Vec<String> = (0..n).map(|i| format!("k{}", i)).collect();
+                let mut b = c.gauge_with_tags("tags", 1u64);
+                for (i, k) in keys.iter().enumerate() {
+                    b = if i % 3 == 0 { b.with_tag_value(k) } else { b.with_tag(k, "v") };
+                }
+                let _ = b.try_send();
+            });
+            if t.join().is_err() {
+                panic!("the thread sending a metric with {} tags panicked", n);
+            }
+        });
+        cx.rep.obs("metrics_with_tens_of_thousands_of_tags", 1);
+    }
     // errors: Display / source / description of every kind
     cx.call("misc", "MetricError API", || Json::Null, || {
         #[allow(deprecated)]
